@@ -85,6 +85,8 @@ structure Rng where
   corruptAt : Nat := 1000000000  -- index of the enum leaf to corrupt (none by default)
   corruptMode : Nat := 0
   bad : Option (Nat × Nat) := none   -- (undeclared value written, wire bytes)
+  sample : Nat := 0              -- index of this sample: steering variables cycle through the compared values
+  steerSeen : Nat := 0
 
 def Rng.next (r : Rng) : UInt64 × Rng :=
   let s := r.s + 0x9E3779B97F4A7C15
@@ -152,8 +154,14 @@ def genLeaf (ctx : GenCtx) (id : Nat) (l : Leaf) (r : Rng) : Option (Val × Rng)
         some (.nat n, r)
       else if !interesting.isEmpty then
         -- flag-like steering variable: none, one mask, union of some masks, everything
-        let (c, r) := r.below 6
-        let (i, r) := r.below interesting.length
+        let masks := interesting.eraseDups
+        let nopt := masks.length + 2
+        let directed := r.sample < 2 * nopt
+        let k := (r.sample + r.steerSeen) % nopt
+        let r := { r with steerSeen := r.steerSeen + 1 }
+        let (c, r) := if directed then ((if k == 0 then 0 else if k == nopt - 1 then 3 else 1), r) else r.below 6
+        let (i, r) := if directed then (k - 1, r) else r.below interesting.length
+        let interesting := if directed then masks else interesting
         let (j, r) := r.below interesting.length
         let all := interesting.foldl (· ||| ·) 0
         let v := match c with
@@ -172,7 +180,14 @@ def genLeaf (ctx : GenCtx) (id : Nat) (l : Leaf) (r : Rng) : Option (Val × Rng)
   | .bool _ => let (x, r) := r.below 2; some (.nat x, r)
   | .enumT k _ vals =>
       if vals.isEmpty then none else
-      let pool := if interesting.isEmpty then vals else (interesting.filter vals.contains) ++ vals
+      let steer := (interesting.filter vals.contains).eraseDups
+      let others := vals.filter (fun v => !steer.contains v)
+      -- directed: sample k takes the k-th compared value (then one value that no condition mentions), later samples are random
+      let opts := steer ++ others.take 1
+      let pool := if interesting.isEmpty then vals
+        else if r.sample < 2 * opts.length then [opts.getD ((r.sample + r.steerSeen) % opts.length) 0]
+        else steer ++ vals
+      let r := if interesting.isEmpty then r else { r with steerSeen := r.steerSeen + 1 }
       let (i, r) := r.below pool.length
       let idx := r.enumSeen
       let r := { r with enumSeen := idx + 1 }
@@ -274,9 +289,9 @@ partial def genBranches (ctx : GenCtx) : Branches → Nat → Env → Rng → Op
   | .cons c ms bs, x, env, r => if c.holds x then genMembers ctx ms env r else genBranches ctx bs x env r
 end
 
-def genContainer (c : Members) (seed : Nat) (maxLen : Nat := 4) : Option (List Val) :=
+def genContainer (c : Members) (seed : Nat) (maxLen : Nat := 4) (sample : Nat := 1000000) : Option (List Val) :=
   let ctx : GenCtx := { lens := lenVars c, conds := condVals c, maxLen := maxLen }
-  (genMembers ctx c [] { s := UInt64.ofNat seed }).map (·.1)
+  (genMembers ctx c [] { s := UInt64.ofNat seed, sample := sample }).map (·.1)
 
 /-- a value in which the `at_`-th enum field (generation order) carries an undeclared number -/
 def genCorrupt (c : Members) (seed at_ mode : Nat) : Option (List Val × Option (Nat × Nat)) :=
